@@ -110,8 +110,14 @@ def run(e, cfg, variant, layer, conn, neuron, inputs, delays, signals=None, chec
     """Drives one trainer over the given symbolic history; returns per-step (pos, neg) element arrays (None when absent)."""
     lr_pos, lr_neg = SIGNS[cfg["signs"]]
     red, dt, B, kind = cfg["reduction"], cfg["dt"], cfg["B"], cfg["cell"]
-    tr, param = make_trainer(variant, lr_pos, lr_neg, red)
-    tr.register_cell("c", layer.cell)
+    if cfg.get("ctor_signs") and variant in ("da-stdp", "da-stdpd", "da-mstdp", "da-mstdpd"):
+        # trainer-level defaults of one sign mode, overridden per cell at registration (the cell's own rates decide)
+        c_pos, c_neg = SIGNS[cfg["ctor_signs"]]
+        tr, param = make_trainer(variant, c_pos, c_neg, red)
+        tr.register_cell("c", layer.cell, lr_pos=lr_pos, lr_neg=lr_neg)
+    else:
+        tr, param = make_trainer(variant, lr_pos, lr_neg, red)
+        tr.register_cell("c", layer.cell)
     for_delay = param == "delay"
     kd = K(dt)
     geo = geometry(cfg)
@@ -290,6 +296,12 @@ def checks(tier):
                         for B, red in (((1, "sum"), (2, "mean"), (2, "sum")) if th else ((2, "mean") if sg != "tensor" else (1, "sum"),)):
                             for dt in ((1.0, 1.3) if th else (1.3,)):
                                 form.append(dict(variant=variant, signs=signs, cell=cell, delays=delays, signal=sg, B=B, reduction=red, dt=dt, T=(Tn if sg != "tensor" or B == 1 else 2)))
+    # per-cell learning-rate overrides whose signs differ from the trainer's defaults
+    for variant in ("da-stdp", "da-stdpd", "da-mstdp", "da-mstdpd"):
+        for ctor, signs in ((("hebbian", "antihebbian"), ("antihebbian", "hebbian"), ("potentiative", "depressive"), ("hebbian", "depressive")) if th else (("hebbian", "antihebbian"), ("depressive", "hebbian"))):
+            form.append(dict(variant=variant, signs=signs, ctor_signs=ctor, cell="dense", delays="symbolic", signal=("scalar-" if "mstdp" in variant else "-"), B=1, reduction="sum", dt=1.3, T=3))
+    for pair in (("da-stdp", "da-kernel"), ("da-stdpd", "da-kerneld")):
+        agree.append(dict(pair=pair, signs="antihebbian", ctor_signs="hebbian", cell="dense", delays="symbolic", B=1, reduction="sum", dt=1.3, T=3))
     # convolutional cells: a parameter is shared by every output location (receptive dimension > 1), locations that have not spiked yet contribute nothing
     for variant in ("da-stdp", "da-stdpd", "da-kernel", "da-kerneld", "da-mstdp", "da-mstdpd"):
         for signs in (tuple(SIGNS) if th else ("hebbian", "antihebbian")):
@@ -312,7 +324,7 @@ def checks(tier):
 BOUNDS = {
     "quick": {"variants": ["DelayAdjustedSTDP", "DelayAdjustedSTDPD", "DelayAdjustedKernelSTDP", "DelayAdjustedKernelSTDPD", "DelayAdjustedMSTDP", "DelayAdjustedMSTDPD", "KernelSTDP"],
               "T": 3, "cells": ["dense 2x2", "direct 2", "Conv2D 2x2 input / 1x2 kernel / 1 filter (2 output locations per weight)"], "delays": "symbolic reals in [0, 3dt] per synapse, re-assigned each step for the delay-learning variants; or all zero",
-              "sign modes": 4, "batch": [1, 2], "signal": "scalar +/-, per-sample symbolic"},
+              "sign modes": "4, also as per-cell overrides of a trainer constructed with another sign mode", "batch": [1, 2], "signal": "scalar +/-, per-sample symbolic"},
     "thorough": {"T": 4, "dt": [1.0, 1.3], "reductions": ["sum", "mean"]},
 }
 OUTSIDE = ["exp is uninterpreted with instantiated monotonicity/product axioms; identical terms on both sides for the formula checks", "lateral cells; conv cells beyond 2x3 input / 2 filters",
